@@ -363,7 +363,8 @@ NPFUN = {'cos', 'sin', 'tan', 'abs', 'absolute', 'exp', 'sqrt', 'angle', 'conj',
          'radians', 'deg2rad', 'degrees', 'rad2deg', 'real', 'imag', 'sum', 'array', 'vectorize', 'ones', 'zeros', 'arange', 'isnan',
          'log10', 'phase', 'any', 'all', 'size', 'logical_not', 'sign', 'arctan2', 'hypot', 'asarray', 'float64', 'complex128'}
 SYN = {'conjugate': 'conj', 'deg2rad': 'radians', 'rad2deg': 'degrees', 'phase': 'angle', 'absolute': 'abs', 'asarray': 'array',
-       'fabs': 'abs', 'float64': 'float', 'complex128': 'float'}
+       'fabs': 'abs', 'float64': 'float', 'complex128': 'float', 'identity': 'eye'}
+_NP_BINOPS = {'multiply': ast.Mult, 'add': ast.Add, 'subtract': ast.Sub, 'divide': ast.Div, 'true_divide': ast.Div, 'matmul': ast.MatMult, 'dot': ast.MatMult}
 REAL_HEADS = {'abs', 'real', 'imag', 'angle', 'floor', 'ceil', 'round', 'mod', 'num'}
 MAXDEPTH = 7
 
@@ -604,8 +605,10 @@ class Evaluator:
                 parts_ = []
                 for x_ in (a, b): parts_ += list(x_.k[1:]) if (isinstance(x_, Opq) and x_.k[0] == 'concat') else [x_]
                 return Opq('concat', *parts_)
-        if isinstance(op, ast.Mult) and isinstance(a, list) and isinstance(b, Poly) and b.real_const() is not None:
+        if isinstance(op, ast.Mult) and isinstance(a, (list, tuple)) and isinstance(b, Poly) and b.real_const() is not None and b.real_const().denominator == 1:
             return a * int(b.real_const())
+        if isinstance(op, ast.Mult) and isinstance(b, (list, tuple)) and isinstance(a, Poly) and a.real_const() is not None and a.real_const().denominator == 1:
+            return b * int(a.real_const())
         if isinstance(op, ast.Mod) and isinstance(a, str): return Opq('fstr', a)
         if isinstance(op, ast.BitOr) or isinstance(op, ast.BitAnd):
             return Opq('bitop', type(op).__name__, a, b)
@@ -969,6 +972,8 @@ class Evaluator:
 
     def getattr(s, v, attr, mod, depth):
         if isinstance(v, Cond): return Cond(v.g, s.getattr(v.a, attr, mod, depth), s.getattr(v.b, attr, mod, depth))
+        if isinstance(v, list) and attr in ('real', 'imag') and not any(isinstance(x, (list, tuple, dict)) for x in v):
+            return [s.getattr(x, attr, mod, depth) for x in v]          # an array written out element by element
         if attr == '__name__' and isinstance(v, (Ref, Closure)) and getattr(v, 'name', None): return v.name
         if isinstance(v, Ref):
             if v.kind == 'module':
@@ -1089,7 +1094,9 @@ class Evaluator:
         for a in e.args:
             if isinstance(a, ast.Starred):
                 v = s.ev(a.value, env, mod, depth)
+                n_ = s.tuple_arity(v) if not isinstance(v, (tuple, list)) else None
                 if isinstance(v, (tuple, list)): args += list(v)
+                elif n_ is not None: args += [s.getitem(v, Poly.const(i_)) for i_ in range(n_)]
                 else: args.append(Opq('*', v))
             else: args.append(s.ev(a, env, mod, depth))
         kw = {}
@@ -1102,6 +1109,20 @@ class Evaluator:
         if isinstance(f, ast.Attribute):
             return s.call_method(recv, f.attr, args, kw, mod, depth, e)
         return s.apply(fv, args, kw, mod, depth, e)
+
+    def tuple_arity(s, v):
+        """length of the tuple an uninterpreted call of a package function returns, when every return statement of that function is a tuple
+        display of one and the same length"""
+        at = v.as_atom() if isinstance(v, Poly) else None
+        if not (isinstance(at, tuple) and len(at) == 4 and at[0] == 'call' and isinstance(at[1], tuple) and at[1][:1] == ('fn',)): return None
+        cands = [f for f in s.prog.funcs.values() if f.parent is None and f.cls is None and getattr(f.node, 'name', None) == at[1][1] and (f.mod.short, at[1][1]) in s.opaque_fns]
+        if len(cands) != 1: return None
+        own = [n for n in ast.walk(cands[0].node) if isinstance(n, ast.Return)]
+        inner = {id(r) for fn_ in ast.walk(cands[0].node) if isinstance(fn_, (ast.FunctionDef, ast.Lambda)) and fn_ is not cands[0].node for r in ast.walk(fn_) if isinstance(r, ast.Return)}
+        rets = [r for r in own if id(r) not in inner]
+        if not rets or not all(isinstance(r.value, ast.Tuple) and not any(isinstance(e_, ast.Starred) for e_ in r.value.elts) for r in rets): return None
+        ns = {len(r.value.elts) for r in rets}
+        return ns.pop() if len(ns) == 1 else None
 
     def _lift_args(s, args, kw, rebuild, budget=3):
         """f(.., g ? a : b, ..) == g ? f(.., a, ..) : f(.., b, ..) for calls that are not interpreted further"""
@@ -1459,6 +1480,11 @@ class Evaluator:
     def npcall(s, name, args, kw):
         name = SYN.get(name, name)
         a = args[0] if args else None
+        # the function spelling of an operator / attribute is the operator / attribute
+        if name in _NP_BINOPS and len(args) == 2 and not kw: return s.binop(_NP_BINOPS[name](), args[0], args[1])
+        if name == 'negative' and len(args) == 1 and not kw: return s.binop(ast.Mult(), Poly.const(-1), a)
+        if name == 'transpose' and len(args) == 1 and not kw: return s.getattr(a, 'T', None, 0)
+        if name in ('real', 'imag') and len(args) == 1 and not kw and not isinstance(a, (Poly, int, F, bool, Cond)): return s.getattr(a, name, None, 0)
         if isinstance(a, Cond):
             return Cond(a.g, s.npcall(name, [a.a] + list(args[1:]), kw), s.npcall(name, [a.b] + list(args[1:]), kw))
         if name == 'isfinite': return True if s.assume_finite else Opq('isfinite', a)
